@@ -181,7 +181,7 @@ def distVerdict (n : Nat) (Y : List (List (Option Rat))) (pts : List (List Rat))
   | none => "dist=nonfinite errlog=0"
   | some rows =>
     let idx := List.range n
-    let scale := idx.foldl (fun acc i => idx.foldl (fun acc j => maxR acc (sqDistPts pts i j)) acc) 1
+    let scale := idx.foldl (fun acc i => idx.foldl (fun acc j => maxR acc (sqDistPts pts i j)) acc) 0
     let worst := idx.foldl (fun (acc : Rat × Nat × Nat) i => idx.foldl (fun acc j =>
         if j ≤ i then acc else
         let e := absR (sqDistPts rows i j - sqDistPts pts i j)
@@ -192,7 +192,7 @@ def distVerdict (n : Nat) (Y : List (List (Option Rat))) (pts : List (List Rat))
 
 /-- eigen-contract on the observed pair: residual and orthonormality, relative to the size of `B` -/
 def eigVerdict {n d : Nat} (B : DMat n n Rat) (V : DMat n d Rat) (lam : DVec d Rat) : String :=
-  let nb := maxR 1 (maxAbs B)
+  let nb := maxAbs B
   let BV := DMat.ofFn (Mat.mul B.get V.get)
   let res := DMat.ofFn (fun a i => BV.get a i - V.get a i * lam.get i : Mat n d Rat)
   let G := DMat.ofFn (Mat.mul (Mat.transpose V.get) V.get)
@@ -224,7 +224,7 @@ def chkLmds (fs : List (String × String)) : String :=
       (match field? fs "B" >>= parseMat nl nl, field? fs "V" >>= parseMat nl d, field? fs "lam" >>= parseVec d,
             field? fs "s" >>= parseVec d, field? fs "Y" >>= parseMatNF n d with
       | some Bi, some V, some lam, some s, some Y =>
-        let scaleB := maxR 1 (maxAbs Bm)
+        let scaleB := maxAbs Bm
         let (pre, _) := cmpMat Bi Bm (tol30 * scaleB)
         let sqrtOk := (List.finRange d).all fun i =>
           absR (s.get i * s.get i - clamp0 (lam.get i)) ≤ tol40 * absR (lam.get i)
@@ -241,9 +241,9 @@ def chkLmds (fs : List (String × String)) : String :=
               let W := DMat.ofFn (pinvCols (eigTol nl epsD lam.get) (post V.get s.get) lam.get)
               let mu := lmdsMuD dist lm
               let scaleD := (List.finRange n).foldl (fun acc x => (List.finRange nl).foldl (fun acc a =>
-                  maxR acc (maxR (absR (dist.get x (lm a) * dist.get x (lm a))) (absR (mu.get a)))) acc) 1
+                  maxR acc (maxR (absR (dist.get x (lm a) * dist.get x (lm a))) (absR (mu.get a)))) acc) 0
               let termScale := (List.finRange d).foldl (fun acc i =>
-                  maxR acc ((sumFin nl fun a => absR (W.get a i)) * scaleD)) (maxR 1 (maxAbs Ym))
+                  maxR acc ((sumFin nl fun a => absR (W.get a i)) * scaleD)) (maxAbs Ym)
               ("ok", (cmpMat Yi Ym (tol30 * termScale)).1)
         let distTok := match ptsO with
           | some pts => " " ++ distVerdict n Y pts (condOf lam)
@@ -271,11 +271,11 @@ def chkLisomap (fs : List (String × String)) : String :=
         let pre :=
           if dense then
             match field? fs "B" >>= parseMat nl nl with
-            | some Bi => let Sm := lisomapSymD Bm; (cmpMat Bi Sm (tol30 * maxR 1 (maxAbs Sm))).1
+            | some Bi => let Sm := lisomapSymD Bm; (cmpMat Bi Sm (tol30 * maxAbs Sm)).1
             | none => "bad-case"
           else
             match field? fs "B" >>= parseMat nl n with
-            | some Bi => (cmpMat Bi Bm (tol30 * maxR 1 (maxAbs Bm))).1
+            | some Bi => (cmpMat Bi Bm (tol30 * maxAbs Bm)).1
             | none => "bad-case"
         let tolL := eigTol nl epsD lam.get
         let qOk := (List.finRange d).all fun i => lam.get i ≤ tolL ||
@@ -293,10 +293,10 @@ def chkLisomap (fs : List (String × String)) : String :=
             | none => ("ok", "nonfinite")
             | some Yi =>
               -- likewise the implementation's B carries rounding of the size of its largest entry everywhere
-              let scaleB := maxR 1 (maxAbs Bm)
+              let scaleB := maxAbs Bm
               let termScale := (List.finRange d).foldl (fun acc i =>
                   if lam.get i ≤ tolL then acc
-                  else maxR acc ((sumFin nl fun a => absR (V.get a i)) * scaleB / absR (q.get i))) (maxR 1 (maxAbs Ym))
+                  else maxR acc ((sumFin nl fun a => absR (V.get a i)) * scaleB / absR (q.get i))) (maxAbs Ym)
               ("ok", (cmpMat Yi Ym (tol30 * termScale)).1)
         -- specification-level oracle, independent of the solver's eigenvectors: the returned columns are the right
         -- singular directions of the model's B (from the observed one-directional geodesics) scaled to norm² √λ:
@@ -311,18 +311,18 @@ def chkLisomap (fs : List (String × String)) : String :=
             let MY := DMat.ofFn (Mat.mul M.get Yi.get)
             let kept (i : Fin d) : Bool := decide (tolL < lam.get i)
             let res := DMat.ofFn (fun x i => if kept i then MY.get x i - lam.get i * Yi.get x i else Yi.get x i : Mat n d Rat)
-            let scaleR := maxR 1 (maxAbs M) * maxR 1 (maxAbs Yi) * (n : Rat)
+            let scaleR := maxAbs M * maxAbs Yi * (n : Rat)
             let G := DMat.ofFn (Mat.mul (Mat.transpose Yi.get) Yi.get)
             let want (i j : Fin d) : Rat := if i = j ∧ kept i then q.get i * q.get i else 0
             let gdef := DMat.ofFn (fun i j => G.get i j - want i j : Mat d d Rat)
-            let scaleG := (List.finRange d).foldl (fun acc i => maxR acc (q.get i * q.get i)) 1
+            let scaleG := (List.finRange d).foldl (fun acc i => if kept i then maxR acc (q.get i * q.get i) else acc) 0
             let svd := if maxAbs res > tol30 * scaleR then "bad:residual"
                        else if maxAbs gdef > tol30 * scaleG then "bad:gram" else "ok"
             let Sm := lisomapSymD Bm
             let tr := sumFin nl fun a => Sm.get a a
             let sumSel := sumFin d fun i => lam.get i
             let lmin := (List.finRange d).foldl (fun acc i => minR acc (lam.get i)) (if h : 0 < d then lam.get ⟨0, h⟩ else 0)
-            let top := if tr - sumSel > ((nl - d : Nat) : Rat) * maxR lmin 0 + tol30 * maxR 1 tr then "bad" else "ok"
+            let top := if tr - sumSel > ((nl - d : Nat) : Rat) * maxR lmin 0 + tol30 * tr then "bad" else "ok"
             (svd, top)
         s!"model={model} pre={pre} root={if qOk then "ok" else "bad"} {eig} post={post} svd={svd} top={top}"
       | _, _, _, _ => "bad-case:obs"
@@ -348,7 +348,7 @@ def answerGram (fs : List (String × String)) : String :=
       if gap ≤ pow2 (-20) * norm then "gram=degenerate errlog=0" else
       let dot (u v : List Rat) : Rat := (List.zipWith (· * ·) u v).sum
       let idx := List.range A.length
-      let scale := idx.foldl (fun acc i => maxR acc (maxR (dot (A.getD i []) (A.getD i [])) (dot (B.getD i []) (B.getD i [])))) 1
+      let scale := idx.foldl (fun acc i => maxR acc (maxR (dot (A.getD i []) (A.getD i [])) (dot (B.getD i []) (B.getD i [])))) 0
       let worst := idx.foldl (fun (acc : Rat × Nat × Nat) i => idx.foldl (fun acc j =>
           let e := absR (dot (A.getD i []) (A.getD j []) - dot (B.getD i []) (B.getD j []))
           if acc.1 < e then (e, i, j) else acc) acc) ((0 : Rat), 0, 0)
@@ -380,7 +380,7 @@ def answer (line : String) : String :=
   else if line.startsWith "negdom " then
     match field? fs "neg" >>= parseRat, field? fs "lamd" >>= parseRat, field? fs "norm" >>= parseRat with
     | some neg, some lamd, some norm =>
-      s!"negdom={if neg < 0 ∧ lamd < -neg then 1 else 0} rankdef={if lamd ≤ pow2 (-20) * norm then 1 else 0}"
+      s!"negdom={if neg < 0 ∧ lamd * (1 - pow2 (-20)) < -neg then 1 else 0} rankdef={if lamd ≤ pow2 (-20) * norm then 1 else 0}"
     | _, _, _ => "bad-case"
   else "bad-case"
 
